@@ -149,8 +149,9 @@ def check_copy(c, cp, wr):
                 c.check(norm(wk.args[0]) == 'self.child_fd' and as_read, cp, wk, 'keyboard input goes to the child\'s descriptor, as read',
                         witness=norm(wk), kind='flow', tag='stdin-to-child:%d' % ws.index((wn, wk)))
             check_only_filter(c, cp, g, n, None, v, 'input_filter', 'stdin-filter')
-            okp, p = g.must_pass(n, {nn for nn, _ in reads if nn is not n} | {g.exit}, set(wn for wn, _ in ws), skip_labels=('exc',))
-            c.check(okp, cp, k, 'every keyboard chunk reaches a write towards the child', witness=g.describe_path(p) if p else None, tag='stdin-delivered')
+            okp, p = g.must_pass(n, {nn for nn, _ in reads if nn is not n} | {g.exit}, set(wn for wn, _ in ws), skip_labels=('exc',),
+                                 through_edges=empty_edges(g, v))
+            c.check(okp, cp, k, 'every non-empty keyboard chunk reaches a write towards the child', witness=g.describe_path(p) if p else None, tag='stdin-delivered')
     # write-all loop
     gw = wr.cfg
     loops = [n for n in iter_nodes(wr.node) if isinstance(n, ast.While)]
@@ -224,8 +225,11 @@ def check_escape(c, f, cp):
     guards = [t for t in g.nodes if t.kind == 'test' and norm(t.ast) == '%s is not None' % ep and fn in guard_region(g, t, 'true')]
     c.check(bool(guards), cp, fn.ast, 'no escape handling when escape_character is None', tag='none-guard')
     inits = [n for n in g.nodes if n.kind == 'stmt' and iv in assigned_names(n.ast) and n is not fn]
-    c.check(len(inits) == 1 and is_const(inits[0].ast.value, -1) and g.dominated_by(fn, {inits[0]})[0], cp, inits[0].ast if inits else fn.ast,
-            'the position defaults to -1 (not found)', kind='ast', tag='default')
+    uses = [n for n in g.nodes if n.ast is not None and n is not fn and n not in inits and
+            any(isinstance(x, ast.Name) and x.id == iv and isinstance(x.ctx, ast.Load) for r_ in node_roots(n) for x in ast.walk(r_))]
+    okd = all(is_const(n.ast.value, -1) for n in inits) and all(g.dominated_by(u, {fn} | set(inits))[0] for u in uses)
+    c.check(okd, cp, inits[0].ast if inits else fn.ast,
+            'wherever the position is used it comes from the search or is the default -1 (not found)', kind='ast', tag='default')
     # stated on the feasible paths after the search, under "found" (i != -1) and "not found" (i == -1): the shape of the tests,
     # flag variables (`escaped = i != -1`) and merged tails do not matter
     FOUND = [('-1 == %s' % iv, False, {iv})]
@@ -266,14 +270,15 @@ def check_escape(c, f, cp):
             witness='; '.join(wit) or None, kind='path', tag='prefix')
     leaves = set(n for n in g.nodes if n in live and n.kind == 'stmt' and isinstance(n.ast, (ast.Break, ast.Return))) | {g.exit}
     # found: the prefix is written on every way on (to the next wait or out of the loop), and after the write nothing more is read
-    p1 = g.path(fn, leaves | reads_, avoid=set(ws) | {fn}, skip_labels=('exc',), include_start=False, assume=FOUND)
+    nothing = empty_edges(g, dv)          # a way round the write that is taken only for an empty prefix / an empty read delivers nothing
+    p1 = g.path(fn, leaves | reads_, avoid=set(ws) | {fn}, skip_labels=('exc',), include_start=False, assume=FOUND, avoid_edges=nothing)
     p2 = None
     for w in ws:
         p2 = p2 or g.path(fn, reads_ | (set(ws) - {w}), avoid={fn}, skip_labels=('exc',), include_start=False, assume=FOUND, via={w})
     c.check(p1 is None and p2 is None, cp, ws[0].ast, 'the prefix is delivered to the child, then interact returns',
             witness=('path: ' + g.describe_path(p1 or p2)) if (p1 or p2) else None, kind='path', tag='deliver-then-leave')
     # not found: everything is written (never the prefix) and the loop goes on
-    p3 = g.path(fn, leaves | reads_, avoid=set(ws) | {fn}, skip_labels=('exc',), include_start=False, assume=NOTFOUND)
+    p3 = g.path(fn, leaves | reads_, avoid=set(ws) | {fn}, skip_labels=('exc',), include_start=False, assume=NOTFOUND, avoid_edges=nothing)
     p4 = g.path(fn, leaves & after, avoid=stop, skip_labels=('exc',), include_start=False, assume=NOTFOUND)
     pc = g.path(fn, cuts, avoid=stop, skip_labels=('exc',), include_start=False, assume=NOTFOUND) if cuts else None
     c.check(p3 is None and p4 is None and pc is None, cp, ws[0].ast, 'without an escape character in the read, the whole read is written and the copy loop goes on',
